@@ -155,8 +155,9 @@ def gen_monitor(rng, widen, floaty=False, finding_rate=1.0):
     reset_keys = rng.weighted([([], 6), (["a"], 2), (["a", "b"], 1)])
     info_keys = rng.weighted([([], 4), (["tag"], 3), (["k", "tag"], 2), (["tag", "k"], 1)])
     allow_early = rng.chance(0.65)
-    # histories with a reset that lacks a keyword reproduce the known finding K-C18-a: kept rare
-    kwfail = bool(reset_keys) and rng.chance(0.25 * finding_rate)
+    # histories with resets that lack a keyword (rejected with ValueError; must not disturb the running episode:
+    # F-C18-a, fixed in /repo by 43bb017)
+    kwfail = bool(reset_keys) and rng.chance(0.3)
     n_ops = rng.randint(1, 60 if widen else 40)
     script = gen_script18(rng, floaty)
     ops = []
@@ -1206,8 +1207,6 @@ def check_cases(ctx, cases):
     def finding_prone(case):
         if case["kind"] == "load":
             return bool(case["append"])
-        if case["kind"] == "monitor":
-            return any(op[0] == "reset" and not all(k in op[1] for k in case["reset_keys"]) for op in case["ops"])
         return False
 
     # cases that can only reproduce a known finding are judged last: new oracle hits come first in the bounded list
